@@ -199,3 +199,110 @@ func TestC10ReferenceKinds(t *testing.T) {
 		}
 	})
 }
+
+// One address, two instances: a pointer to a struct and a pointer to that struct's first field are
+// equal as addresses and are two services with a Close method each.
+type rkPump struct{ c *rkCount }
+
+func (p *rkPump) Close() error { p.c.closed.Add(1); return nil }
+
+type rkEngine struct {
+	Pump rkPump // first field: &engine.Pump == &engine as addresses
+	c    *rkCount
+}
+
+func (e *rkEngine) Close() error { e.c.closed.Add(1); return nil }
+
+type rkEngineOut struct {
+	godi.Out
+	Engine *rkEngine
+	Pump   *rkPump
+}
+
+func TestC10FirstField(t *testing.T) {
+	col := evid.New("C10", "object-and-its-first-field", "a constructor (multi-return or result object, any lifetime) that hands back an object and, as a further output, a pointer to that object's first field - one address, two instances, each with a Close method; resolved a generated number of times from the provider and from scopes in a generated order of the two identities, then everything is closed; oracle: every engine and every pump any constructor made has received exactly one Close call; non-trivial = made in a scope")
+	defer col.Flush()
+	rapid.Check(t, func(rt *rapid.T) {
+		var made []*rkCount
+		mk := func() *rkEngine {
+			e := &rkEngine{c: &rkCount{id: len(made)}}
+			e.Pump.c = &rkCount{id: len(made) + 1}
+			made = append(made, e.c, e.Pump.c)
+			return e
+		}
+		coll := godi.NewCollection()
+		life := rapid.IntRange(0, 2).Draw(rt, "life")
+		multi := rapid.Bool().Draw(rt, "multiReturn")
+		pumpFirst := rapid.Bool().Draw(rt, "pumpFirst")
+		var ctor any
+		switch {
+		case multi && pumpFirst:
+			ctor = func() (*rkPump, *rkEngine) { e := mk(); return &e.Pump, e }
+		case multi:
+			ctor = func() (*rkEngine, *rkPump) { e := mk(); return e, &e.Pump }
+		default:
+			ctor = func() rkEngineOut { e := mk(); return rkEngineOut{Engine: e, Pump: &e.Pump} }
+		}
+		var err error
+		switch life {
+		case 0:
+			err = coll.AddSingleton(ctor)
+		case 1:
+			err = coll.AddScoped(ctor)
+		default:
+			err = coll.AddTransient(ctor)
+		}
+		if err != nil {
+			rt.Fatalf("registration failed: %v", err)
+		}
+		p, err := coll.Build()
+		if err != nil {
+			rt.Fatalf("VIOLATION C10/first-field [build]: %v", err)
+		}
+		targets := []godi.Provider{p}
+		for i, n := 0, rapid.IntRange(0, 2).Draw(rt, "nscopes"); i < n; i++ {
+			s, err := p.CreateScope(context.Background())
+			if err != nil {
+				rt.Fatalf("CreateScope: %v", err)
+			}
+			targets = append(targets, s)
+		}
+		canon := fmt.Sprintf("life=%s multi=%v pumpFirst=%v scopes=%d", lifeName(life), multi, pumpFirst, len(targets)-1)
+		inScope := false
+		for i := rapid.IntRange(1, 6).Draw(rt, "ngets"); i > 0; i-- {
+			ti := rapid.IntRange(0, len(targets)-1).Draw(rt, "target")
+			var err error
+			if rapid.Bool().Draw(rt, "getPump") {
+				_, err = godi.Resolve[*rkPump](targets[ti])
+				canon += fmt.Sprintf(" pump(t%d)", ti)
+			} else {
+				_, err = godi.Resolve[*rkEngine](targets[ti])
+				canon += fmt.Sprintf(" engine(t%d)", ti)
+			}
+			if err != nil {
+				rt.Fatalf("VIOLATION C10/first-field [resolve]: %v\n%s", err, canon)
+			}
+			if ti > 0 && life != 0 {
+				inScope = true
+			}
+		}
+		for _, tg := range targets[1:] {
+			if rapid.Bool().Draw(rt, "closeExplicitly") {
+				_ = tg.Close()
+			}
+		}
+		if err := p.Close(); err != nil {
+			rt.Fatalf("VIOLATION C10/first-field [close]: %v\n%s", err, canon)
+		}
+		col.Case(inScope, canon, canon)
+		for i, c := range made {
+			if n := c.closed.Load(); n != 1 {
+				what := "engine"
+				if i%2 == 1 {
+					what = "pump (the engine's first field)"
+				}
+				rt.Fatalf("VIOLATION C10/exactly-once [first-field]: %s #%d received %d Close calls after everything was closed, want 1\n%s", what, i/2, n, canon)
+			}
+		}
+	})
+}
